@@ -222,6 +222,7 @@ func c12FrameCase(c *c12Ctx, s *c12Sut, r *verifutil.Rng, i int) {
 	}
 	rep.Count("inputs", 1)
 	rep.Count("class:"+strings.SplitN(mut, "/", 2)[0], 1)
+	c.given = 0
 	c.desc = fmt.Sprintf("frames/%s #%d %s[%s] %s", s.name, i, c12CodeName(code), label, mut)
 	var d c12Decoded
 	if stream == nil {
@@ -261,6 +262,20 @@ func c12FrameCase(c *c12Ctx, s *c12Sut, r *verifutil.Rng, i int) {
 	if rng != nil {
 		rng.start(c, s, stream)
 	}
+	c.given = d.size
+	if code == protocol.Handshake && d.ok && d.code == protocol.Handshake && r.Bool() {
+		// the first message of a connection is read by readStatus, not by handle
+		herr, ok := s.feed(c, "protoPeer.readStatus", stream)
+		if ok {
+			rep.Count("reached:Handshake", 1)
+			rep.Count("handshake:"+c12ErrClass(herr), 1)
+			if herr == nil {
+				rep.Count("accepted:Handshake", 1)
+			}
+			rep.Distinct(c12Sha(stream), "readStatus/"+c12ErrClass(herr))
+		}
+		return
+	}
 	evBefore := s.events()
 	err, ok := s.feed(c, "handle/"+name, stream)
 	if !ok {
@@ -289,6 +304,9 @@ func c12FrameCase(c *c12Ctx, s *c12Sut, r *verifutil.Rng, i int) {
 			rep.Distinct(c12Sha(stream), branch)
 		}
 		s.closeRange(c, rng, false)
+		if err == nil {
+			c12Settle(c) // something was handled (stream-level case): let the node's own goroutines finish
+		}
 		return
 	}
 	// ---- what the node does next with an accepted message
